@@ -139,7 +139,7 @@ def ext_community(rng, kind=None):
     if k == 'redirect-nh':
         return dict(kind=k, ip=ipv4(rng), copy=rng.choice([0, 1, 0, 1, 2, 255, 32768, 65535]))    # 16-bit local administrator, bit 0 = copy
     if k == 'traffic-rate':
-        return dict(kind=k, asn=rng.choice(ASN2 + [0]), rate=rng.choice([0, 1, 100, 1000, 65536, 16777216, 1000000]))
+        return dict(kind=k, asn=rng.choice(ASN2 + [0]), rate=rng.choice([0, 1, 100, 1000, 65536, 16777216, 1000000, 0.5, 1.5, 1000.25, 0.10000000149011612, 12500000.0]))    # IEEE single precision values, with and without a fraction
     if k == 'traffic-action':
         return dict(kind=k, s=rng.choice([0, 1]), t=rng.choice([0, 1]))
     if k == 'traffic-marking':
